@@ -21,6 +21,7 @@ def slice_components(ctx, kind, names=("start", "stop", "step")):
         comps.append(None if k == "N" else SInt(z3.Int(nm)))
     if comps[2] is not None:
         ctx.assume(comps[2].t != 0)
+    ctx.declare_inputs(*[c for c in comps if c is not None])
     return comps
 
 
